@@ -8,6 +8,9 @@ X = "crates/parser/src/text_table.rs"
 
 TRUSTED = {
     r"fn vp_token_text": "O9: Token::to_string() (Display via the string table) outlined; its text is text_bytes(token.text)",
+    r"struct VpParolToken|struct VpErr": "O9-parol: parol_runtime::lexer::Token and anyhow::Error are opaque external types",
+    r"fn vp_loc_|fn vp_ptext|fn vp_insert_path|fn vp_current_text|fn vp_chars_count": "O9-parol: accessors of parol's token/location outlined; ploc()/ptext() are uninterpreted: the location parol "
+                                                                     "reports is ASSUMED to be where the text is, and location.len() is assumed to be the byte length of text()",
     r"fn vp_get_text": "O9: resource_table::get_str_value(id).unwrap() outlined; its text is an arbitrary byte string text_bytes(id)",
     r"fn vp_comment_matches": "O9: COMMENT_REGEX.captures_iter outlined; assumed: matches are in bounds, non-empty, ordered, non-overlapping (regex crate contract)",
     r"fn vp_slice": "O9: &text[a..b] outlined; assumed: byte sub-range (char-boundary panics not modelled)",
@@ -98,6 +101,28 @@ def build(ctx, res):
     f.replace("            doc_comment_table::insert(path, line, text);\n        }", "            vp_doc_insert(path, line, text);\n        } }", rule="O9 + O10 let-chain split")
     f.spec(POST)
     add(f)
+    # TryFrom<&parol_runtime::lexer::Token> for Token: an ordinary token reports exactly parol's location
+    tf = t.item("fn", "try_from", impl="TryFrom<&parol_runtime::lexer::Token<'t>> for Token")
+    tf.sub(r"fn try_from\(x: &parol_runtime::lexer::Token<'t>\) -> Result<Self, anyhow::Error>",
+           "fn vp_token_try_from(x: &VpParolToken) -> (r: Result<Token, VpErr>)", count=1, rule="O9-parol: parol token and anyhow error are opaque external types")
+    tf.sub(r"&x\.location\.file_name", "vp_loc_file(x)", rule="O9-parol")
+    tf.sub(r"x\.location\.start_line", "vp_loc_start_line(x)", rule="O9-parol")
+    tf.sub(r"x\.location\.start_column", "vp_loc_start_column(x)", rule="O9-parol")
+    tf.sub(r"x\.location\.start\b(?!_)", "vp_loc_start(x)", rule="O9-parol")
+    tf.sub(r"x\.location\.len\(\)", "vp_loc_len(x)", rule="O9-parol")
+    tf.sub(r"x\.text\(\)", "vp_ptext(x)", rule="O9-parol")
+    tf.sub_opt(r"vp_ptext\(x\)\.chars\(\)\.count\(\)", "vp_char_count(vp_ptext(x))", rule="O2") if False else None
+    tf.sub_opt(r"\.chars\(\)\.count\(\)", ".vp_chars_count()", rule="O2m")
+    tf.replace("resource_table::new_token_id()", "vp_new_token_id()", rule="O9")
+    tf.sub(r"resource_table::insert_str\(", "vp_insert_str(", count=1, rule="O9")
+    tf.sub(r"resource_table::insert_path\(", "vp_insert_path(", count=1, rule="O9")
+    tf.replace("text_table::get_current_text()", "vp_current_text()", rule="O9")
+    tf.spec("    ensures r is Ok,\n"
+            "        r->Ok_0.line == ploc(*x).0, r->Ok_0.column == ploc(*x).1, r->Ok_0.pos == ploc(*x).2,\n"
+            "        // byte length: pos .. pos + length delimits exactly the token's text\n"
+            "        r->Ok_0.length == utf8(ptext(*x)).len(), text_bytes(r->Ok_0.text) == utf8(ptext(*x)),")
+    add(tf, "vp_token_try_from")
+
     # Token::end_line / end_column: position of the token's last character
     vf.raw("impl Token {", "impl")
     e = t.item("fn", "end_line", impl="Token")
@@ -125,15 +150,19 @@ def build(ctx, res):
     # the loop is created by rule O9-loop, so its invariant and ghost code are attached to the rewritten text by anchor
     text = text.replace("    for vp_i in 0..vp_m.len() {\n", "    for vp_i in 0..vp_m.len()" + INV + "    {\n" + GHOST_TOP, 1)
     text = text.replace("        ret.push(token);\n", GHOST_PUSH + "        ret.push(token);\n", 1)
+    # second step of rule O2 where the receiver was itself rewritten: E.vp_chars_count() -> vp_char_count(E)
+    import re as _re
+    text = _re.sub(r"(vp_ptext\(x\))\.vp_chars_count\(\)", r"vp_char_count(\1)", text)
     res.clauses.update({
         "Token::end_line": "ensures r == line + #newlines in the token text",
         "Token::end_column": "ensures r == chars of the text's last line if the text contains a newline, else column + chars - 1 (character column of the last character)",
+        "TryFrom<&parol Token> for Token": "ensures Ok; line/column/pos are parol's start_line/start_column/start, length == byte length of the text (so pos..pos+length delimits the text), the interned text is the token's text",
         "split_comment_token": "requires positions fit u32 (file < 2^31 bytes); ensures for the k-th regex match (s,e): line == T.line + #'\\n' in text[..s]; "
                                "column == 1 + chars after the last '\\n' in text[..s] (or T.column + chars of text[..s] if none); length == e-s; pos == T.pos + s; source unchanged; tokens in match order",
     })
     res.samples.append({"obligation": "verus:tokpos:split_comment_token", "contract": POST.strip()})
     return [VerusJob("tokpos", text, vf, ["split_comment_token", "lemma_count_nl_split", "lemma_chars_split", "lemma_count_nl_sub", "lemma_chars_sub",
-                                           "lemma_chars_le", "lemma_line_start_sub", "lemma_line_start_prefix", "lemma_count_prefix", "lemma_line_start_le", "Token::end_line", "Token::end_column"],
+                                           "lemma_chars_le", "lemma_line_start_sub", "lemma_line_start_prefix", "lemma_count_prefix", "lemma_line_start_le", "Token::end_line", "Token::end_column", "vp_token_try_from"],
                      canaries=CANARIES, items=items, trusted=TRUSTED, rlimit=60)]
 
 
@@ -184,7 +213,8 @@ fn gen_text(g: &mut Rng) -> String {
     let mut s = String::new();
     let n = 1 + g.below(4);
     for _ in 0..g.below(3) { s.push_str(if g.below(2) == 0 { "\n" } else { " " }); }
-    s.push_str("module A {}");
+    // ordinary tokens with multi-byte text: a string literal inside the first module
+    if g.below(2) == 0 { s.push_str("module A { const S: string = \"gr\u{fc}\u{df}e \u{2192} ok\"; const T: u32 = 1; }"); } else { s.push_str("module A {}"); }
     for _ in 0..n {
         for _ in 0..g.below(3) { s.push(' '); }
         match g.below(3) {
@@ -210,15 +240,23 @@ fn main() {
         let mut last_pos: i64 = -1;
         for t in &c.tokens {
             let s = resource_table::get_str_value(t.text).unwrap_or_default();
-            if s.is_empty() || !(s.starts_with("//") || s.starts_with("/*")) { continue; }
+            if s.is_empty() { continue; }
             n += 1;
+            // every token: end_line / end_column are the position of its last character
+            let nl = s.matches('\n').count() as u32;
+            let want_end_col = if nl > 0 { s.rsplit('\n').next().unwrap_or("").chars().count() as u32 } else { t.column + s.chars().count() as u32 - 1 };
+            if t.end_line() != t.line + nl || t.end_column() != want_end_col {
+                println!("FOUND {{\"text\":{:?},\"token\":{:?},\"line\":{},\"column\":{},\"end_line\":{},\"end_column\":{},\"expected_end_line\":{},\"expected_end_column\":{}}}",
+                    text, s, t.line, t.column, t.end_line(), t.end_column(), t.line + nl, want_end_col);
+                std::process::exit(1);
+            }
             let pos = t.pos as usize;
             // the reported byte offset must hold the comment's text, and line / character column must be those of that offset
             let ok_text = text.get(pos..pos + s.len()) == Some(s.as_str());
             let (line, col) = if ok_text {
                 (1 + text[..pos].matches('\n').count() as u32, 1 + text[..pos].rsplit('\n').next().unwrap_or("").chars().count() as u32)
             } else { (0, 0) };
-            if !ok_text || t.line != line || t.column != col || t.length as usize != s.len() || (pos as i64) < last_pos {
+            if !ok_text || t.line != line || t.column != col || t.length as usize != s.len() || (pos as i64) <= last_pos {
                 println!("FOUND {{\"text\":{:?},\"comment\":{:?},\"reported\":{{\"line\":{},\"column\":{},\"pos\":{},\"length\":{}}},\"expected_at_reported_pos\":{{\"text_matches\":{},\"line\":{},\"column\":{},\"length\":{}}}}}",
                     text, s, t.line, t.column, t.pos, t.length, ok_text, line, col, s.len());
                 std::process::exit(1);
